@@ -303,6 +303,9 @@ def run(res, tier, lean, prop="C01", proof_breaks=(), build_log=""):
         # a populated directory tree ARRIVES (moved in from outside) and one of its sub-directories vanishes just before the
         # k-th inotify_add_watch of the library's walk: the rest of the arrived tree must be covered all the same
         plan += [("faultin", k) for k in ((2, 3, 4, 5, 6) if thorough else (2, 3, 4))]
+        if prop == "C07":
+            # ... and with the vanished sub-directory's parent replaced by a regular file at once (ENOTDIR)
+            plan += [("faultinfile", k) for k in ((4, 5, 6, 7, 8) if thorough else (5, 6, 7))]
     if prop == "C07":
         # the same with the vanished directory's name taken by a regular file at once (ENOTDIR instead of ENOENT)
         plan += [("faultfile", k) for k in ((2, 3, 4, 5, 6) if thorough else (2, 4, 6))]
@@ -351,9 +354,10 @@ def run(res, tier, lean, prop="C01", proof_breaks=(), build_log=""):
         elif what is not None and what[0] == "overflow":
             init_b = [("mkdir", "W/d")]
             bursts = [[("create", "W/a")], [("create", "W/d/b")], [("mkdir", "W/n")], [("create", "W/n/a"), ("write", "W/n/a")]]
-        elif what is not None and what[0] == "faultin":
+        elif what is not None and what[0] in ("faultin", "faultinfile"):
             init_b = [("mkdir", "O/n"), ("mkdir", "O/n/a"), ("mkdir", "O/n/b"), ("mkdir", "O/n/d"), ("mkdir", "O/n/dd"),
-                      ("create", "O/n/dd/b"), ("mkdir", "O/n/b/d"), ("mkdir", "W/d")]
+                      ("create", "O/n/dd/b"), ("mkdir", "O/n/a/d"), ("mkdir", "O/n/b/d"), ("mkdir", "O/n/d/d"), ("mkdir", "O/n/dd/d"),
+                      ("mkdir", "W/d")]
             bursts = [[("rename", "O/n", "W/n")], [("create", "W/d/a")]]
         elif what is not None and what[0] in ("fault", "faultfile", "faultback"):
             init_b = [("mkdir", "W/d")]
@@ -379,7 +383,7 @@ def run(res, tier, lean, prop="C01", proof_breaks=(), build_log=""):
             wfault = what[1]
         elif what is not None:
             vanish = what[1]
-            vfile = what[0] == "faultfile"
+            vfile = what[0] in ("faultfile", "faultinfile")
             vback = what[0] == "faultback"
         elif prop == "C07" and i % 2 == 1 and not paced:
             vanish = r.randint(1, 6)        # a directory vanishes just before the k-th follow-up inotify_add_watch
